@@ -175,6 +175,10 @@ impl AnyConn {
             AnyConn::V6(c6::Connection::new())
         }
     }
+    /// 0.6 stateless accept: an acceptor created directly in the online state for a token it handed out earlier.
+    pub fn new_accept_token(cb: &mut SimCb, token: [u8; 4]) -> AnyConn {
+        AnyConn::V6(c6::Connection::new_accept_token(cb, libtw2_net::protocol::Token(token)))
+    }
     pub fn connect(&mut self, cb: &mut SimCb) -> Result<(), ()> {
         both!(self, c => c.connect(cb))
     }
